@@ -45,7 +45,10 @@ def random_obs(rng, domains, vs):
     obs = {}
     for v in vs:
         d = domains[v]
-        obs[v] = rng.randrange(d[1]) if d[0] == "disc" else round(rng.uniform(-2.0, 2.0), 3)
+        if d[0] == "disc":
+            obs[v] = rng.randrange(d[1])
+        else:  # continuous: mostly floats, sometimes a python int (int and float observations mix)
+            obs[v] = rng.choice([-1, 0, 1, 2]) if rng.random() < 0.3 else round(rng.uniform(-2.0, 2.0), 3)
     return obs
 
 
